@@ -15,10 +15,10 @@ pub fn def() -> PropertyDef {
     PropertyDef {
         id: "C29",
         level: "exploration",
-        rule: "sub `exhaustive`: ALL histories of length ≤ L (quick 6, thorough 7) over the 11-letter alphabet {get k, put k v0, put k v1 (k∈3 keys), clear, len} for each capacity 0–4, run on LruCache and on ObjectCache, compared step by step and by a final residency probe with an abstract ordered-list LRU model; sub `random`: proptest histories ≤ 200 ops over 6 keys, capacity ≤ 8; sub `concurrent`: 2–3 real threads × ≤ 4 ops on ObjectCache, recorded invocation/response intervals checked for linearizability (Wing–Gong search) against the model. Non-trivial: the history evicts at least once (sequential) / has overlapping operations of different threads (concurrent); distinct by history.",
+        rule: "sub `exhaustive`: ALL histories of length ≤ L (quick 6, thorough 7) over the 11-letter alphabet {get k, put k v0, put k v1 (k∈3 keys), clear, len} for each capacity 0–4, run on LruCache and on ObjectCache, compared step by step and by a final residency probe with an abstract ordered-list LRU model; sub `random`: proptest histories ≤ 200 ops over 6 keys, capacity ≤ 8; sub `concurrent`: 2–3 real threads × ≤ 4 ops on ObjectCache, recorded invocation/response intervals checked for linearizability (Wing–Gong search) against the model; sub `contention`: free-running threads, then a quiescent probe; sub `shuttle-schedules`: memory/cache.rs rebuilt from the working tree on shuttle primitives, all interleavings (depth-first, capped) of 2 threads × ≤ 3 ops and 3 threads × ≤ 2 ops plus random/PCT schedules of ≤ 3 threads × ≤ 4 ops, each history extended by a quiescent probe and checked for linearizability. Non-trivial: the history evicts at least once (sequential) / has overlapping operations of different threads (concurrent); distinct by history.",
         assumptions: &[
             "abstract model: ordered list, get and put move the key to most-recent, put on a full cache evicts the least-recent, capacity 0 stores nothing",
-            "concurrent histories run on OS threads: only the interleavings the scheduler offers are explored (no controlled scheduler hook landed); yields are inserted between operations from generated positions",
+            "sub-checks concurrent and contention run on OS threads: only the interleavings the scheduler offers are explored there; the controlled-schedule half is sub-check shuttle-schedules, which runs the library's cache source compiled against shuttle's RwLock/Mutex/atomics (interleavings at the granularity of synchronisation operations)",
         ],
         trusted_base: &["harness LRU model (30 lines)", "harness linearizability checker (exhaustive search over ≤ 12 operations)"],
         run,
@@ -478,6 +478,71 @@ fn run(ctx: &Ctx) {
     ctx.run_sub("concurrent", ctx.tier.pick(3_000, 60_000), conc, check_conc);
     let stress = || (1usize..4, 2u8..5, 2_000u32..6_000, any::<u64>()).prop_flat_map(|(capacity, threads, iters, seed)| ((capacity as u8 + 1)..(capacity as u8 + 4)).prop_map(move |keys| StressCase { capacity, threads, iters, keys, seed }));
     ctx.run_sub("contention", ctx.tier.pick(400, 8_000), stress, check_stress);
+    shuttle_part(ctx);
+}
+
+// ---------------------------------------------------------------- controlled schedules (shuttle)
+
+/// `harness-shuttle` (binary vp-shuttle-c29, built by `/verif/check` for C29) compiles memory/cache.rs from the
+/// working tree on shuttle's primitives and enumerates the interleavings of small generated cases depth-first
+/// (plus random and PCT schedules); every execution's history, extended by a quiescent probe, is checked for
+/// linearizability against the same LRU model. This is the part of the schedule quantifier the OS scheduler cannot give.
+fn run_shuttle(ctx: &Ctx, tier: &str, seed: u64) -> Result<Value, String> {
+    let bin = ctx.verif_dir.join(".build-shuttle").join("debug").join("vp-shuttle-c29");
+    if !bin.exists() {
+        return Err(format!("{} not built", bin.display()));
+    }
+    let out = std::process::Command::new(&bin).arg(tier).env("VERIF_SEED", seed.to_string()).output().map_err(|e| format!("cannot run {}: {e}", bin.display()))?;
+    let text = String::from_utf8_lossy(&out.stdout);
+    let line = text.lines().rev().find_map(|l| l.strip_prefix("JSON ")).ok_or_else(|| format!("no result line from vp-shuttle-c29 (status {:?})", out.status))?;
+    let v: Value = serde_json::from_str(line).map_err(|e| format!("bad result line from vp-shuttle-c29: {e}"))?;
+    if v["ran"].as_bool() != Some(true) {
+        return Err(format!("memory/cache.rs could not be rebuilt on shuttle primitives: {}", v["why"].as_str().unwrap_or("?")));
+    }
+    Ok(v)
+}
+
+fn shuttle_outcomes(res: &Value) -> Vec<Outcome> {
+    res["found"]
+        .as_array()
+        .map(|a| {
+            a.iter()
+                .map(|f| {
+                    let sig = f["sig"].as_str().unwrap_or("C29/shuttle|unknown");
+                    let (clause, class) = sig.split_once('|').unwrap_or((sig, ""));
+                    let mut o = Outcome::new();
+                    o.nontrivial(true);
+                    o.fail(clause, class, format!("{} schedules: {}", f["n"], f["detail"].as_str().unwrap_or("")));
+                    o
+                })
+                .collect()
+        })
+        .unwrap_or_default()
+}
+
+fn shuttle_part(ctx: &Ctx) {
+    let tier = ctx.tier.name();
+    match run_shuttle(ctx, tier, ctx.seed) {
+        Err(e) => {
+            ctx.note(format!("schedule part (shuttle) could not run: {e}; the concurrent clause was decided on real threads only"));
+            ctx.extra("shuttle", serde_json::json!({"ran": false, "why": e}));
+        }
+        Ok(res) => {
+            let n = res["random_pct"].as_u64().unwrap_or(0) + res["dfs"].as_u64().unwrap_or(0);
+            // distinct: counted conservatively as the number of generated cases (schedules of one case are distinct under
+            // depth-first enumeration, but random and PCT schedules may repeat)
+            let distinct = res["dfs_cases"].as_u64().unwrap_or(0) + res["random_cases"].as_u64().unwrap_or(0);
+            ctx.bulk("shuttle-schedules", n, distinct, serde_json::json!({"dfs_cases": res["dfs_cases"], "dfs_cases_enumerated_completely": res["dfs_complete"], "dfs_schedules": res["dfs"], "two_thread_cases": res["two_thread_cases"], "three_thread_cases": res["three_thread_cases"], "random_cases": res["random_cases"], "random_pct_schedules": res["random_pct"]}));
+            ctx.extra("shuttle", serde_json::json!({"ran": true, "result": res}));
+            for (i, o) in shuttle_outcomes(&res).into_iter().enumerate() {
+                let case = serde_json::json!({"seed": ctx.seed, "tier": tier, "signature": o.fails[0].signature()});
+                let unknown = ctx.record("shuttle-schedules", crate::engine::hash64(format!("shuttle{i}{}", o.fails[0].signature()).as_bytes()), &o, || case.clone());
+                if let Some(f) = unknown.first() {
+                    ctx.violation("shuttle-schedules", f, case, &o.fails);
+                }
+            }
+        }
+    }
 }
 
 fn replay(ctx: &Ctx, sub: &str, case: &Value) -> Result<Outcome, String> {
@@ -485,6 +550,19 @@ fn replay(ctx: &Ctx, sub: &str, case: &Value) -> Result<Outcome, String> {
         "exhaustive" | "random" => ctx.replay_case::<Case, _>(case, check),
         "concurrent" => ctx.replay_case::<ConcCase, _>(case, check_conc),
         "contention" => ctx.replay_case::<StressCase, _>(case, check_stress),
+        "shuttle-schedules" => {
+            // a schedule finding is reproduced by re-running the campaign it came from (same seed and tier)
+            let res = run_shuttle(ctx, case["tier"].as_str().unwrap_or("quick"), case["seed"].as_u64().unwrap_or(0))?;
+            let want = case["signature"].as_str().unwrap_or("");
+            let mut out = Outcome::new();
+            out.nontrivial(true);
+            for o in shuttle_outcomes(&res) {
+                if want.is_empty() || o.fails[0].signature() == want {
+                    out.fails.extend(o.fails);
+                }
+            }
+            Ok(out)
+        }
         s => Err(format!("unknown sub-check {s}")),
     }
 }
